@@ -56,8 +56,12 @@ namespace
     return ps;
   }
 
-  template<class Solver>
-  std::string threadWork(Solver& solver, std::uint64_t seed, std::size_t ncell, int rounds)
+  // when set, threads call the documented three-argument overload Solve(time_step, state, parameters), every thread
+  // passing the very parameters the solver was built with
+  bool g_three_arg = false;
+
+  template<class Solver, class Params>
+  std::string threadWork(Solver& solver, const Params& params, std::uint64_t seed, std::size_t ncell, int rounds)
   {
     Rng r{ seed };
     std::string out;
@@ -88,7 +92,10 @@ namespace
         x = 1e9 * r.unit();
       state.SetCustomRateParameter("surf.particle number concentration [# m-3]", p);
       solver.CalculateRateConstants(state);
-      auto res = solver.Solve(10.0 * r.unit() + 0.1, state);
+      double dt = 10.0 * r.unit() + 0.1;
+      auto res = g_three_arg ? solver.Solve(dt, state, params) : solver.Solve(dt, state);
+      if (g_three_arg)
+        state.variables_.Max(0.0);   // the two-argument overload clamps; keep the two modes comparable
       out += vh::hexd(res.final_time_) + ":" + std::to_string(res.stats_.number_of_steps_) + ":";
       for (auto v : state.variables_.AsVector())
         out += vh::hexd(v) + ",";
@@ -110,10 +117,10 @@ namespace
                       .Build();
     std::vector<std::string> serial(nthreads), par(nthreads);
     for (int t = 0; t < nthreads; ++t)
-      serial[t] = threadWork(solver, seed * 1000 + t, ncell, rounds);
+      serial[t] = threadWork(solver, params, seed * 1000 + t, ncell, rounds);
     std::vector<std::thread> th;
     for (int t = 0; t < nthreads; ++t)
-      th.emplace_back([&, t]() { par[t] = threadWork(solver, seed * 1000 + t, ncell, rounds); });
+      th.emplace_back([&, t]() { par[t] = threadWork(solver, params, seed * 1000 + t, ncell, rounds); });
     for (auto& x : th)
       x.join();
     int diff = 0;
@@ -123,7 +130,7 @@ namespace
     // serial again afterwards: the solver object must behave as before
     int after = 0;
     for (int t = 0; t < nthreads; ++t)
-      if (threadWork(solver, seed * 1000 + t, ncell, rounds) != serial[t])
+      if (threadWork(solver, params, seed * 1000 + t, ncell, rounds) != serial[t])
         ++after;
     return std::string("tsan cfg=") + name + " threads=" + std::to_string(nthreads) + " differ=" + std::to_string(diff) +
            " after=" + std::to_string(after);
@@ -135,6 +142,7 @@ int main(int argc, char** argv)
   std::uint64_t seed = argc > 1 ? std::stoull(argv[1]) : 1;
   int nthreads = argc > 2 ? std::stoi(argv[2]) : 4;
   int rounds = argc > 3 ? std::stoi(argv[3]) : 4;
+  g_three_arg = argc > 4 && std::string(argv[4]) == "3arg";
   using VM = micm::VectorMatrix<double, 3>;
   using VS = micm::SparseMatrix<double, micm::SparseMatrixVectorOrdering<3>>;
   auto rp = micm::RosenbrockSolverParameters::ThreeStageRosenbrockParameters();
